@@ -36,6 +36,9 @@ def _alphabet():
   A = []
   A.append(('select(a,b)', {'a', 'b'}, lambda t, s: t.select(('a', 'b')), lambda r: {'a': r['a'], 'b': r['b']}, lambda ks: {'a', 'b'}))
   A.append(('select(a->z)', {'a'}, lambda t, s: t.select('a', output_keys='z'), lambda r: {'z': r['a']}, lambda ks: {'z'}))
+  A.append(('select(a->0)', {'a'}, lambda t, s: t.select('a', output_keys=0), lambda r: {0: r['a']}, lambda ks: {0}))
+  A.append(('select(a->Index 0)', {'a'}, lambda t, s: t.select('a', output_keys=Key.Index(0)), lambda r: [r['a']], lambda ks: set()))
+  A.append(('assign(0 = neg a)', {'a'}, lambda t, s: t.assign(0, fn=f_neg, input_keys='a'), lambda r: {**r, 0: -r['a']}, lambda ks: ks | {0}))
   A.append(('apply(sum a,b -> c)', {'a', 'b'}, lambda t, s: t.apply(fn=f_sum, input_keys=('a', 'b'), output_keys='c'), lambda r: {'c': r['a'] + r['b']}, lambda ks: {'c'}))
   A.append(('apply(kwargs x=a,y=b -> c)', {'a', 'b'}, lambda t, s: t.apply(fn=f_kw, input_keys=dict(x='a', y='b'), output_keys='c'), lambda r: {'c': 10 * r['a'] + r['b']}, lambda ks: {'c'}))
   A.append(('apply(two a -> (d,e))', {'a'}, lambda t, s: t.apply(fn=f_two, input_keys='a', output_keys=('d', 'e')), lambda r: {'d': r['a'] + 1, 'e': r['a'] + 2}, lambda ks: {'d', 'e'}))
@@ -57,7 +60,7 @@ def _records():
 
 
 def bounded_operator_chains(p):
-  S = Search(p, dict(chains='all sequences of <=3 operators from 12 (select/apply/assign/filter/sink with tuple, dict/kwargs, nested-path, SKIP keys)',
+  S = Search(p, dict(chains='all sequences of <=3 operators from 15 (select/apply/assign/filter/sink with tuple, dict/kwargs, nested-path, SKIP keys)',
                      stream='3 dict records with a nested value', fused_vs_named='both', threads='0'))
   alpha = _alphabet()
   for n in range(1, 4):
